@@ -9,7 +9,8 @@ regenerated from the source on this run gives exactly the model functions `Parse
 state; so the statements are not only pinned but *executed*: the correspondence driver runs
 `runChunksI` on the regenerated bodies (`reader_interpreted_eq_model`: = `ParserIO.runChunks`), so a
 source change that alters the meaning shows in the correspondence run with whatever was extracted,
-and the theorems (proved through the transcribed skeleton) flag any change of the statement list.
+and breaks exactly these two theorems (they are proved by evaluating this interpreter on the
+regenerated lists — there is no hand copy — so a reordering with the same meaning keeps them).
 
 bufio is modelled as far as these two functions use it: `ReadRune` (fill loop + `utf8.DecodeRune`,
 `ParserIO.Rd.fill` / `decodeRune`), `UnreadRune` (allowed once after a `ReadRune`: the reader
